@@ -1,0 +1,28 @@
+//go:build verif
+
+package ast
+
+// Contracts for gvc (the /verif condition generator). Comment-only: nothing here is compiled
+// into the library; the file exists only under the build tag "verif".
+
+/*@
+// node(p): the ast.Node value made from pointer p
+macro isoNew(v) = par(v) == nil && nxt(v) == nil && prv(v) == nil && fst(v) == nil && lst(v) == nil && cnt(v) == 0 && klen(v) == 0
+
+// constructors: a fresh node that is in no list and has no children; the ghost view learns about it
+func NewTableCell
+  uses nodeModel
+  requires WF()
+  postupdates klen(p) = (p == asnode(result) ? 0 : klen(p))
+  ensures WF()
+  ensures result != nil && fresh(result) && isoNew(asnode(result)) && result.Alignment == AlignNone
+  modifies nothing
+
+func NewTableRow
+  uses nodeModel
+  requires WF()
+  postupdates klen(p) = (p == asnode(result) ? 0 : klen(p))
+  ensures WF()
+  ensures result != nil && fresh(result) && isoNew(asnode(result)) && sameslice(result.Alignments, alignments)
+  modifies nothing
+@*/
